@@ -17,11 +17,24 @@ OBLIGATIONS = [
     "KafVerif.C26.v1_unknown_roundtrip",
     "KafVerif.C26.v1_port_decimal",
     "KafVerif.C26.parseOld_misreads_tcp6",
+    "KafVerif.C26.v1_roundtrip_decimal_ports",
+    "KafVerif.C26.v1_port_not_range_checked",
+    "KafVerif.C26.v1_max_length_roundtrip",
+    "KafVerif.C26.v1_overlong_rejected",
+    "KafVerif.C26.v2_unhandled_family",
+    "KafVerif.C26.v2_transport_and_version_nibbles_ignored",
+    "KafVerif.C26.v2_max_length_local",
+    "KafVerif.C26.v2_max_length_inet",
+    "KafVerif.C26.v2_max_length_inet6",
+    "KafVerif.C26.v2_short_address_rejected",
+    "KafVerif.C26.v2_truncated_rejected",
+    "KafVerif.C26.err_remainder_suffix",
 ]
 BUILDS = {"h": ("root", "./cmd/verif_c26", ["C26"])}
 LEVEL_TEXT = ("Lean theorems over the model of ReadProxyProtocol: never panics, passthrough without a header, remainder is "
               "a suffix of the input, v1 and v2 (LOCAL / TCP4 / TCP6 + TLVs) round trips for every address, port and "
-              "trailing stream; tied to the code by a differential run through net.Pipe with seeded chunking and an "
+              "trailing stream, boundary theorems (v1 line of exactly 256 bytes accepted, longer rejected after exactly 256 bytes; "
+              "v2 length 0xFFFF; unhandled address families give no info with the stream preserved; short/truncated v2 rejected); tied to the code by a differential run through net.Pipe with seeded chunking and an "
               "independent per-op oracle.")
 TECHNIQUE = "Lean 4 proof over an executable model + differential correspondence + direct monitor"
 ASSUMPTIONS = [
@@ -178,10 +191,118 @@ def gen_plain(rng):
     return s, "ok none rest=" + hx(s)
 
 
+def spec_oracle(stream):
+    """The expected result line for ANY stream, from the PROXY protocol text alone (same reading as gen_v1/gen_v2/gen_plain)."""
+    if stream[:5] == b"PROXY":
+        nl = stream.find(b"\n")
+        if nl < 0 or nl >= 256:
+            return "err"
+        fields, rest = stream[: nl + 1].split(), stream[nl + 1:]
+        if len(fields) >= 2 and fields[1].upper() == b"UNKNOWN":
+            return "ok local rest=" + hx(rest)
+        if len(fields) < 6:
+            return "err"
+        s, d, sp_, dp_ = fields[2], fields[3], fields[4], fields[5]
+        return "ok v1 src=%s dst=%s sp=%d dp=%d sa=%s da=%s rest=%s" % (hx(s), hx(d), atoi(sp_), atoi(dp_), hx(join_host_port(s, sp_)), hx(join_host_port(d, dp_)), hx(rest))
+    if len(stream) >= 5 and stream[:5] == SIG[:5]:
+        if len(stream) < 12:
+            return "err"
+        if stream[:12] != SIG:
+            return "ok none rest=" + hx(stream)
+        if len(stream) < 16:
+            return "err"
+        vercmd, fam = stream[12], stream[13]
+        declared = struct.unpack(">H", stream[14:16])[0]
+        if len(stream) - 16 < declared:
+            return "err"
+        pay, rest = stream[16:16 + declared], stream[16 + declared:]
+        if vercmd & 0x0F == 0:
+            return "ok local rest=" + hx(rest)
+        if fam >> 4 == 1:
+            return "err" if len(pay) < 12 else "ok v2 src=%s dst=%s sp=%d dp=%d addr=ok rest=%s" % (
+                hx(pay[0:4]), hx(pay[4:8]), struct.unpack(">H", pay[8:10])[0], struct.unpack(">H", pay[10:12])[0], hx(rest))
+        if fam >> 4 == 2:
+            return "err" if len(pay) < 36 else "ok v2 src=%s dst=%s sp=%d dp=%d addr=ok rest=%s" % (
+                hx(v4mapped(pay[0:16])), hx(v4mapped(pay[16:32])), struct.unpack(">H", pay[32:34])[0], struct.unpack(">H", pay[34:36])[0], hx(rest))
+        return "ok none rest=" + hx(rest)
+    return "ok none rest=" + hx(stream)
+
+
+def boundary_cases(rng, thorough):
+    """The boundaries the C26 boundary theorems are about, as `econn` ops (a rejection also reports what was consumed):
+    v1 lines of 254..258 bytes made of tokens only, LF at index 254..257, no LF at all, port tokens around 65535 / 18-20 digits;
+    v2 length field 0 / 0xFFFF (full and one byte short), every family/transport byte, every command nibble, address blocks one
+    byte short / exact."""
+    streams = []
+    trails = [b"", b"rest", TRAILS[1], b"\n", b"\r\n"]
+    for total in (250, 254, 255, 256, 257, 258, 300):
+        for proto, tail in ((b"TCP4", b" 10.0.0.2 1234 80"), (b"TCP6", b" ::1 65535 65536"), (b"UNKNOWN", b" x 1 2"), (b"unknown", b"")):
+            fixed = len(b"PROXY " + proto + b" ") + len(tail) + 2
+            src = (b"h" * 300)[: total - fixed]
+            line = b"PROXY " + proto + b" " + src + tail + b"\r\n"
+            assert len(line) == total
+            for tr in trails[:3] if not thorough else trails:
+                streams.append(line + tr)
+    for n in (200, 254, 255, 256, 257, 258, 511, 512, 513):
+        streams.append(b"PROXY TCP4 " + b"a" * (n - 11))                       # no LF at all: EOF / gives up after 256
+        streams.append(b"PROXY TCP4 1.1.1.1 2.2.2.2 1 2" + b" " * (n - 31) + b"\n" + b"tail")   # LF at index n-1
+    for port in (b"0", b"65535", b"65536", b"00080", b"99999", b"9" * 18, b"9" * 19, b"9223372036854775807", b"9223372036854775808",
+                 b"18446744073709551615", b"18446744073709551616", b"18446744073709551617", b"1" * 30, b"6553x", b"", b"+1", b"-0"):
+        if port:
+            streams.append(b"PROXY TCP4 1.2.3.4 5.6.7.8 " + port + b" " + port + b"\r\nrest")
+    # v2
+    a4 = bytes([10, 0, 0, 1, 10, 0, 0, 2]) + struct.pack(">HH", 1234, 65535)
+    a6 = bytes.fromhex("20010db8000000000000000000000001") + bytes.fromhex("20010db8000000000000000000000002") + struct.pack(">HH", 65535, 9092)
+    def v2(vercmd, fam, payload, declared=None, trail=b""):
+        return SIG + bytes([vercmd, fam]) + struct.pack(">H", len(payload) if declared is None else declared) + payload + trail
+    combos = ((0x20, 0x00, b""), (0x20, 0x11, a4), (0x21, 0x11, a4), (0x21, 0x12, a4), (0x21, 0x21, a6), (0x21, 0x22, a6),
+              (0x21, 0x00, b""), (0x21, 0x31, rng.bytes(216)))
+    if not thorough:      # 64 KiB streams are slow in the model interpreter: one per theorem in the quick tier
+        combos = (combos[0], combos[2], combos[4], combos[6])
+    for vercmd, fam, addr in combos:
+        full = addr + rng.bytes(65535 - len(addr))
+        for tr in (b"rest",) if not thorough else (b"", b"rest", TRAILS[1]):
+            streams.append(v2(vercmd, fam, full, trail=tr))                        # length field 0xFFFF, whole payload present
+        if thorough or fam == 0x11:
+            streams.append(v2(vercmd, fam, full[:-1], declared=0xFFFF))            # one byte short of the declared 0xFFFF
+        streams.append(v2(vercmd, fam, b"", declared=0xFFFF))
+        streams.append(v2(vercmd, fam, b"", trail=b"rest"))                        # length field 0
+    for fam in range(256):                                                          # every family/transport byte, PROXY command
+        pay = (a4 if fam >> 4 == 1 else a6 if fam >> 4 == 2 else rng.bytes(40)) + b"\x04\x00\x01\x00"
+        streams.append(v2(0x21, fam, pay, trail=b"rest"))
+        if thorough or fam % 16 in (0, 1, 2):
+            streams.append(v2(0x21, fam, pay[:11], trail=b"rest"))
+            streams.append(v2(0x21, fam, b"", trail=b"rest"))
+    for vercmd in list(range(0x20, 0x30)) + [0x00, 0x01, 0x11, 0x31, 0xF1, 0xFF, 0x10]:   # every command nibble, odd version nibbles
+        for fam, addr in ((0x11, a4), (0x21, a6), (0x00, b"xx")):
+            streams.append(v2(vercmd, fam, addr, trail=b"rest"))
+    for n in (0, 11, 12, 13):
+        streams.append(v2(0x21, 0x11, a4[:n] if n <= 12 else a4 + b"\x00", trail=b"rest"))
+    for n in (12, 35, 36, 37):
+        streams.append(v2(0x21, 0x21, a6[:n] if n <= 36 else a6 + b"\x00", trail=b"rest"))
+    for n in range(5, 17):                                                          # stream ends inside signature / header
+        streams.append(v2(0x21, 0x11, a4)[:n])
+    out = []
+    for st in streams:
+        seed = 0 if rng.chance(1, 2) else rng.range(1, 1 << 30)
+        out.append(("econn %d %s" % (seed, hx(st)), st, spec_oracle(st)))
+    return out
+
+
 def monitor(stream, out, exp):
     """Direct property on one implementation line; (fingerprint, what) or None."""
     if out == "panic":
         return "parser-panic", "ReadProxyProtocol panicked"
+    if out.startswith("err rest="):
+        # econn: a rejection; what is still readable must be a tail of what was sent (how much exactly is compared with the model)
+        r = out[9:]
+        if r in ("nil-conn", "unreadable"):
+            out = "err"
+        else:
+            r = bytes.fromhex(r) if r != "-" else b""
+            if not stream.endswith(r):
+                return "remainder-not-suffix", "after a rejected header the wrapped connection delivers bytes that are not the tail of what was sent"
+            out = "err"
     if out.startswith("ok"):
         rest = out.split("rest=")[1]
         rest = bytes.fromhex(rest) if rest != "-" else b""
@@ -258,9 +379,12 @@ def run(ck):
     n = 4000 if ck.quick() else 60000
     ck.cov["rule"] = ("one op = one connection byte stream (v1 lines with boundary tokens/separators/terminators/lengths around 256, "
                       "v2 headers over all command/family nibbles with TLVs, short and lying lengths, plain streams incl. near-miss "
-                      "prefixes), written through net.Pipe in seeded chunk sizes; non-trivial = the stream starts with a PROXY/v2 "
+                      "prefixes; boundary set: token-only v1 lines of 254..258 bytes, LF at index 254..257, ports around 65535 and 2^63/2^64, "
+                      "v2 length field 0 and 0xFFFF (whole / one byte short), every family/transport byte and command nibble), written through net.Pipe in seeded chunk sizes; non-trivial = the stream starts with a PROXY/v2 "
                       "prefix and is not rejected; distinct = distinct streams")
-    cases = fixed_cases() + make_ops(ck.rng, n)
+    bnd = boundary_cases(ck.rng, not ck.quick())
+    ck.count("boundary_cases", len(bnd))
+    cases = fixed_cases() + bnd + make_ops(ck.rng, n)
     impl, fn = run_impl(ck, bins["h"], cases, "main")
     if impl is None:
         return
